@@ -128,16 +128,24 @@ void h_pop(void)
 #endif /* DYN_TYPED */
 
 /* ===================== kind-generic operations ===================== */
+/* a struct array in the fresh shape (elem_size 0, no store) holds nothing: every indexed operation must end the run,
+ * so the "returned" cover points do not apply to that case of the split */
+#if VERIF_KIND == 6 && defined(VERIF_ESZ) && VERIF_ESZ == 0
+#define COVER_NZ(c) ((void)0)
+#else
+#define COVER_NZ(c) VERIF_COVER(c)
+#endif
+
 void h_remove_at(void)
 {
     DynArray *arr; int64_t index;
     WIT_ARRAY(arr); WIT(in_index = nondet_i64(); index = in_index;)
     DynArray *r = dyn_array_remove_at(arr, index);
-    VERIF_COVER(r != NULL /* remove_at returned */);
-    VERIF_COVER(r->length == 0 /* removed the only element */);
-    VERIF_COVER(index == 0 && r->length > 2 /* front removed, suffix moved */);
-    VERIF_COVER(index > 0 && index == r->length /* last removed, nothing moved */);
-    VERIF_COVER(index > 1 && index + 1 < r->length && __verif_kb > 16 /* middle */);
+    COVER_NZ(r != NULL /* remove_at returned */);
+    COVER_NZ(r->length == 0 /* removed the only element */);
+    COVER_NZ(index == 0 && r->length > 2 /* front removed, suffix moved */);
+    COVER_NZ(index > 0 && index == r->length /* last removed, nothing moved */);
+    COVER_NZ(index > 1 && index + 1 < r->length && __verif_kb > 16 /* middle */);
 }
 
 void h_clear(void)
@@ -148,7 +156,7 @@ void h_clear(void)
     VERIF_COVER(1 /* clear returned */);
 }
 
-void h_length(void) { DynArray *arr; WIT_ARRAY(arr); int64_t r = dyn_array_length(arr); VERIF_COVER(r > 8); VERIF_COVER(r == 0); }
+void h_length(void) { DynArray *arr; WIT_ARRAY(arr); int64_t r = dyn_array_length(arr); COVER_NZ(r > 8); VERIF_COVER(r == 0); }
 void h_capacity(void) { DynArray *arr; WIT_ARRAY(arr); int64_t r = dyn_array_capacity(arr); VERIF_COVER(r > 8); }
 void h_elem_type(void) { DynArray *arr; WIT_ARRAY(arr); ElementType r = dyn_array_get_elem_type(arr); VERIF_COVER(r == DYN_KIND); }
 
@@ -187,8 +195,8 @@ void h_clone(void)
     DynArray *r = dyn_array_clone(arr);
     VERIF_COVER(r == NULL);
     VERIF_COVER(r != NULL && r->length == 0);
-    VERIF_COVER(r != NULL && r->length > 0 && r->length <= 8);
-    VERIF_COVER(r != NULL && r->length > 8);
+    COVER_NZ(r != NULL && r->length > 0 && r->length <= 8);
+    COVER_NZ(r != NULL && r->length > 8);
 }
 
 void h_push_struct(void)
@@ -197,9 +205,15 @@ void h_push_struct(void)
     WIT_ARRAY(arr);
     WIT(in_ssz = nondet_u64(); ssz = in_ssz; __CPROVER_assume(ssz <= 4096); sp = malloc(ssz); __CPROVER_assume(sp);)
     DynArray *r = dyn_array_push_struct(arr, sp, ssz);
+#ifndef VERIF_SSZ_BIG      /* struct_size > 255 cannot be stored (uint8_t elem_size): the only way out is the abort cover */
     VERIF_COVER(r != NULL /* push_struct returned */);
-    VERIF_COVER(r->length == 1);
-    VERIF_COVER(r->length > 1 && r->elem_size > 8);
+#if VERIF_KIND == 6 && defined(VERIF_ESZ) && VERIF_ESZ != 0
+    VERIF_COVER(r->length > 1 && r->length <= r->capacity / 2 /* appended, no growth */);
+    VERIF_COVER(r->length > 8 && r->length == r->capacity / 2 + 1 /* appended after growth */);
+#else
+    VERIF_COVER(r->length == 1 /* first struct: store allocated here */);
+#endif
+#endif
 }
 
 #if VERIF_KIND == 6
@@ -208,7 +222,7 @@ void h_get_struct(void)
     DynArray *arr; int64_t index;
     WIT_ARRAY(arr); WIT(in_index = nondet_i64(); index = in_index;)
     void *r = dyn_array_get_struct(arr, index);
-    VERIF_COVER(r != NULL);
+    COVER_NZ(r != NULL);
 #ifndef VERIF_C08
     VERIF_COVER(r == NULL);
 #endif
@@ -220,8 +234,8 @@ void h_set_struct(void)
     WIT_ARRAY(arr); WIT(in_index = nondet_i64(); index = in_index;)
     WIT(in_ssz = nondet_u64(); ssz = in_ssz; __CPROVER_assume(ssz <= 4096); sp = malloc(ssz); __CPROVER_assume(sp);)
     dyn_array_set_struct(arr, index, sp, ssz);
-    VERIF_COVER(1 /* set_struct returned */);
-    VERIF_COVER(index > 2 && ssz > 8);
+    COVER_NZ(1 /* set_struct returned */);
+    COVER_NZ(index > 2);
 }
 
 void h_pop_struct(void)
@@ -231,8 +245,9 @@ void h_pop_struct(void)
     WIT(in_ssz = nondet_u64(); ssz = in_ssz; __CPROVER_assume(ssz <= 4096); out = malloc(ssz); __CPROVER_assume(out);)
     WIT(in_success_null = nondet_u8(); success = in_success_null ? NULL : malloc(sizeof(bool)); __CPROVER_assume(in_success_null || success);)
     dyn_array_pop_struct(arr, out, ssz, success);
-    VERIF_COVER(1 /* pop_struct returned */);
-    VERIF_COVER(success == NULL);
-    VERIF_COVER(success != NULL && ssz > 8);
+    COVER_NZ(1 /* pop_struct returned */);
+    COVER_NZ(success == NULL);
+    COVER_NZ(success != NULL);
 }
 #endif
+
